@@ -9,6 +9,7 @@ import (
 	"bytes"
 	"context"
 	"encoding/json"
+	"errors"
 	"fmt"
 	"io"
 	"os"
@@ -394,8 +395,13 @@ func (self *Runtime) InvokePipeline(src string, srcPath string, psid string,
 		pipestancePath, mroPaths,
 		mroVersion, envs, false, readOnly, context.Background())
 	if err != nil {
-		// If instantiation failed, delete the pipestance folder.
-		os.RemoveAll(pipestancePath)
+		// If instantiation failed, delete the pipestance folder, unless
+		// it failed because another instance, which found the folder
+		// empty at the same time, has made it its own in the mean time.
+		var locked *PipestanceLockedError
+		if !errors.As(err, &locked) {
+			os.RemoveAll(pipestancePath)
+		}
 		return nil, err
 	}
 
